@@ -232,6 +232,19 @@ Proof.
 Qed.
 Print Assumptions C06_preexisting_output.
 
+(* 16. The sync column of the output equals the source sync, whatever wrot: the whitening step
+   multiplies only the ncv voltage columns (Model.whitened_column), so for every function the
+   step may apply to a voltage value (matrix product, scalar, anything) the word written at a
+   column >= ncv is the source word, for all 65536 int16 values. *)
+Theorem C06_sync_whatever_wrot : forall c col whiten r, c_ncv c <= col -> -32768 <= r <= 32767 ->
+  whitened_column c col = false /\ out_word (c_ncv c) col whiten r = r.
+Proof.
+  intros c col whiten r Hc Hr. split.
+  - unfold whitened_column. apply andb_false_iff. right. apply Z.ltb_ge. exact Hc.
+  - exact (sync_whatever_wrot (c_ncv c) col whiten r Hc Hr).
+Qed.
+Print Assumptions C06_sync_whatever_wrot.
+
 (* The hypotheses are satisfiable on a concrete, non-trivial call: 12000 samples, batch 3000
    (stride 952, 11 batches), 3 workers, 5 padding samples, 65 int16 columns. *)
 Definition ex_cfg := mkCfg 1024 12000 3000 3 5 0 65 2 64 0 0.
